@@ -14,7 +14,18 @@ Property: every one of those log-probabilities equals the Katz recursion `Backof
 evaluated by Lean directly on the raw table.
 ARPA: text written from a table is parsed by the real `parse_arpa_lm` and by the Lean
 line-level model `parseArpa`; both must give back the table.
+
+Caller-owned objects (improvement round 3): every object handed to a constructor / entry point - the
+table (`prob_dicts`), the history tensor and its whole storage, idx tensors, the `prev` dict, a state
+dict, `token2id`, an open file - is compared with a deep copy taken before the call, unless the
+documentation says the call may consume it (`destructive=True`); the model's own buffers must survive
+evaluation. The SAME table object is handed to further constructions (`steps`: other start symbols -
+outside then inside the vocabulary and the reverse -, other spellings, after a rejected or a
+destructive construction); every model built must be the Lean model's and evaluate the Katz
+recursion on the table the caller holds at that moment (Lean: the heap procedure `buildTrieMem`,
+which also predicts what a destructive construction leaves behind).
 """
+import copy
 import io
 import itertools
 import math
@@ -63,6 +74,114 @@ ARPA_VARIANTS = ("counts_reversed", "sections_reversed", "split_section", "dup_l
 BITS = {"torch.uint8": 8, "torch.int16": 16, "torch.int32": 32, "torch.int64": 64}
 
 
+# every way of calling the constructor; the last two allow it to consume the table
+CTORS = ("positional", "keyword", "logger", "prob_list", "destructive", "destructive_kw")
+
+
+def is_destructive(ctor):
+    return ctor.startswith("destructive")
+
+
+def _logger():
+    import logging
+    lg = logging.getLogger("verif.c06")
+    lg.propagate = False
+    lg.setLevel(logging.INFO)
+    if not lg.handlers:
+        lg.addHandler(logging.NullHandler())
+    return lg
+
+
+def construct(V, sos, table, ctor):
+    """`LookupLanguageModel(V, sos, table, ...)` in one of its spellings; `table` is the CALLER's object."""
+    from pydrobert.torch.modules import LookupLanguageModel
+    if ctor == "destructive":
+        return LookupLanguageModel(V, sos, table, True)
+    if ctor == "destructive_kw":
+        return LookupLanguageModel(V, sos, prob_dicts=table, destructive=True, logger=_logger())
+    if ctor == "prob_list":
+        return LookupLanguageModel(V, sos, prob_list=table)
+    if ctor == "keyword":
+        return LookupLanguageModel(vocab_size=V, sos=sos, prob_dicts=table, destructive=False)
+    if ctor == "logger":
+        return LookupLanguageModel(V, sos, table, False, _logger())
+    return LookupLanguageModel(V, sos, table)
+
+
+def _obs_key(k):
+    try:
+        return [int(x) for x in k] if isinstance(k, (tuple, list)) else [int(k)]
+    except Exception:
+        return [repr(k)]
+
+
+def table_obs(table, held):
+    """What the caller sees of the table it handed over: the length of its list object and the contents of
+    the dict objects it had put there (sorted: the order inside a dict is compared separately)."""
+    out = []
+    for d in held:
+        rows = []
+        for k, v in d.items():
+            lp, lb = v if isinstance(v, tuple) and len(v) == 2 else (v, None)
+            rows.append({"key": _obs_key(k), "logp": frac_str(lp), "logb": None if lb is None else frac_str(lb)})
+        out.append(sorted(rows, key=lambda e: (len(e["key"]), repr(e["key"]))))
+    return {"outer_len": len(table), "dicts": out}
+
+
+def table_changes(table, held, snap):
+    """Differences between the caller's table and the deep copy `snap` (of the dict objects `held`, with the
+    list's length) taken before the call."""
+    out = []
+    snap_len, snap_dicts = snap
+    if len(table) != snap_len:
+        out.append(f"the list had {snap_len} elements, now {len(table)}")
+    elif any(a is not b for a, b in zip(table, held)):
+        out.append("the list holds other dict objects than before")
+    for n, (d, old) in enumerate(zip(held, snap_dicts)):
+        if list(d.items()) == list(old.items()) and all(type(d[k]) is type(old[k]) for k in d):
+            continue
+        gone = [k for k in old if k not in d]
+        new = [k for k in d if k not in old]
+        diff = [k for k in d if k in old and (d[k] != old[k] or type(d[k]) is not type(old[k]))]
+        if not (gone or new or diff):
+            out.append(f"the order-{n + 1} dict lists its keys in another order")
+        else:
+            out.append(f"the order-{n + 1} dict " + ", ".join(
+                x for x in (gone and f"lost {gone[:4]}", new and f"gained {new[:4]}", diff and f"changed {diff[:4]}")
+                if x))
+    return out
+
+
+def step_hist(case, sos_k):
+    """The case's history for a model with start symbol `sos_k`: tokens that are neither vocabulary ids nor
+    `sos_k` (the first model's out-of-vocabulary start symbol) become `sos_k`."""
+    V = case["V"]
+    return [[x if (0 <= x < V or x == sos_k) else sos_k for x in row] for row in case["hist"]]
+
+
+def gen_steps(rng, V, sos, n=None):
+    """Further constructions from the same table object: start symbol the same / a vocabulary token / outside
+    the vocabulary, any spelling (a destructive one may come first: what follows must be rejected)."""
+    out = []
+    for _ in range(n or rng.choice((1, 1, 2))):
+        out.append({"sos": rng.choice((sos, sos, rng.randrange(V), -1, V, V + 3)),
+                    "ctor": rng.choice(CTORS[:4] * 3 + CTORS[4:])})
+    return out
+
+
+def table_valid(dicts, V, sos):
+    """Is the table one that `LookupLanguageModel(V, sos, table)` must accept? (at least unigrams, a non-empty
+    highest order, keys of order n have n tokens, every token a vocabulary id or the start symbol)"""
+    if not dicts or not dicts[-1]:
+        return False
+    ok = set(range(V)) | {sos}
+    return all(len(e["key"]) == n + 1 and set(e["key"]) <= ok for n, d in enumerate(dicts) for e in d)
+
+
+def sos_class(V, sos):
+    return "in" if 0 <= sos < V else "out"
+
+
 def grid(rng, lo=-16):
     return frac_str(Fraction(rng.randrange(lo * 8, 1), 8))
 
@@ -88,6 +207,8 @@ def gen_table(rng, V, sos, N, density, p_inf, p_sos_in_key, max_top=None):
             keys = [tuple(rng.choice(range(V)) for _ in range(n))]
         if n == N and max_top is not None:
             keys = keys[:max_top]
+        if rng.random() < 0.5:
+            rng.shuffle(keys)          # the order in which the caller filled the dict is an input too
         for k in keys:
             e = {"key": list(k), "logp": NEG_INF if rng.random() < p_inf else grid(rng)}
             if n < N:
@@ -306,7 +427,11 @@ def pick_layout(rng, case, p_contig=0.35):
         case["hist"] = [[row[0]] * case["B"] for row in case["hist"]]
     case["layout"] = {"kind": kind, "salt": rng.randrange(1000)}
     case["hist_dtype"] = rng.choice(("int64", "int64", "int32"))
-    case["ctor"] = rng.choice(("positional",) * 4 + ("destructive", "prob_list"))
+    case["ctor"] = rng.choice(("positional",) * 4 + CTORS[1:])
+    case["reload"] = rng.choice(("serialised", "serialised", "direct"))
+    case["pass_prev"] = rng.random() < 0.5
+    if rng.random() < 0.3 and not case.get("oov"):
+        case["steps"] = gen_steps(rng, case["V"], case["sos"])
     return case
 
 
@@ -330,8 +455,16 @@ class C06(PropertyCheck):
             "batch-first tensor, a slice with non-zero storage offset, every second row, a column block, a "
             "transposed block or an expanded column (unseen cells hold other valid tokens), dtype int64/int32; "
             "all chunk sizes 1..T+2 (and < 1: RuntimeError); scalar and per-element idx, also spelled as python "
-            "int / one-element vector / negative / int32; constructor positional / destructive / prob_list=; "
-            "state_dict round trip through torch.save/load; a DESIGNED-SPARSITY stream for the two paths of the "
+            "int / one-element vector / negative / int32; constructor positional / keyword / with logger / prob_list= / "
+            "destructive (positional, keyword); state_dict round trip through torch.save/load or handed over "
+            "directly; CALLER-OWNED OBJECTS: the table, the history tensor with its whole storage, idx tensors, the "
+            "prev dict, the state dict (ARPA: token2id, the open file) are compared with a deep copy taken before "
+            "every call (unless destructive=True), the model's buffers before/after evaluation; REUSE: the same "
+            "table object handed to 1-2 further constructions (30% of the table cases + a complete stream over "
+            "the start-symbol classes outside/inside x first/later, tables that mention the out-of-vocabulary "
+            "symbol or not, a rejected construction before/after an accepted one, a destructive one last / in the "
+            "middle): buffers and log-probabilities of every model against the Lean heap model and the Katz "
+            "recursion on the table the caller then holds; a DESIGNED-SPARSITY stream for the two paths of the "
             "lookup's descent (for one window: the context path alive down to depth dc - contexts listed with non-zero "
             "back-off weights - and every n-gram path dead below depth dn, nothing else in the table resurrecting "
             "either, finite unigrams; every pair (dc, dn) for order 4 [2..6 thorough], pairs two or more levels apart "
@@ -357,6 +490,10 @@ class C06(PropertyCheck):
         "slot of a window and below 256 (the code indexes the unigram level with the most recent token and casts "
         "the window to the id dtype)",
         "ARPA: the three regular expressions and float() of the reader are exercised by correspondence only",
+        "caller-owned objects: Python/torch equality of an object with a deep copy taken before the call is what "
+        "'unchanged' means (table: list length, element identity, dict contents, value types, key order; tensors: "
+        "whole storage, shape, strides, offset, dtype); the Lean heap model `buildTrieMem` predicts the table's "
+        "contents after every construction (order inside a dict not modelled), tensors have no Lean model",
     ]
     quick_budget_s = 75
     thorough_budget_s = 800
@@ -372,6 +509,9 @@ class C06(PropertyCheck):
         # 1b. designed sparsity of the two descent paths: every (context depth, n-gram depth) pair, evaluated alone
         # (batch of one), next to a copy of itself and next to a history that matches at the highest order
         yield from self.path_stream(rng, tier)
+        # 1c. ONE table object, several models: the caller's table must survive every non-destructive construction
+        # and every model built from it must be the model of the table the caller holds at that moment
+        yield from self.reuse_stream(rng, tier)
         # (order: the small complete streams first - layouts, ARPA option grid, malformed, sizes - so that a slow
         # machine's time budget can only cut into the random bulk, never into a whole class of input)
         # 4b. memory layouts of the history tensor: every kind of view x order x batch width, T >= 3
@@ -404,7 +544,9 @@ class C06(PropertyCheck):
                    "corrupt": rng.choice((None,) * 14 + ARPA_CORRUPT),
                    # (audit) the same table written differently: count lines / sections in descending order, a
                    # section split in two, a line listed twice (the later one wins)
-                   "variant": rng.choice((None,) * 4 + ARPA_VARIANTS)}
+                   "variant": rng.choice((None,) * 4 + ARPA_VARIANTS),
+                   # the same arguments (token2id, file object rewound) handed over a second time
+                   "reread": rng.random() < 0.3}
         # the full grid entry x base once each, on a fixed small table
         for entry in ("fileobj", "path", "opened"):
             for base_e in (True, False, None):
@@ -413,7 +555,7 @@ class C06(PropertyCheck):
                     yield {"kind": "arpa", "V": 3, "dicts": dicts, "implicit": False, "style": "fixed",
                            "numeric_tokens": False, "blank_lines": False, "base_e": base_e, "entry": entry,
                            "ftype": "float", "token2id": call == "positional", "logger": False, "call": call,
-                           "corrupt": None}
+                           "corrupt": None, "reread": base_e is not False}
         # (audit) every rejection path and every re-ordering of the reader's line-level state machine once, with
         # the zero back-offs written and left out, word and numeric tokens: a field too many that is not a number
         # (float() fails, the length check rejects), a back-off on the highest order, a section for an order the
@@ -492,6 +634,37 @@ class C06(PropertyCheck):
                             sos = rng.choice((0, -1, V, rng.randrange(V)))
                             yield gen_path_case(rng, V, sos, N, dc, dn, batch)
 
+    def reuse_stream(self, rng, tier):
+        """Every pair of start-symbol classes for the first and the later constructions (outside -> the same,
+        outside -> inside, inside -> outside, inside -> another token, outside -> another outside value, the same
+        token twice, three constructions), tables that mention the out-of-vocabulary start symbol (a construction
+        with an in-vocabulary one is then REJECTED, before or after an accepted one) or do not, every spelling of
+        the constructor, a destructive construction last (allowed) or first (what follows must be rejected)."""
+        for _ in range(1 if tier == "quick" else 4):
+            for N in (2, 3):
+                for mention in (False, True):
+                    V = rng.choice((2, 3))
+                    inn, other = 0, V - 1
+                    plans = [(-1, (-1,)), (-1, (inn,)), (inn, (-1,)), (inn, (other,)), (-1, (V,)), (inn, (inn,)),
+                             (-1, (-1, inn)), (inn, (V + 3, inn)), (V + 3, (other, V + 3))]
+                    for k, (sos0, later) in enumerate(plans + [plans[1], plans[2], plans[6]]):
+                        outs = [x for x in (sos0,) + later if not 0 <= x < V]
+                        tsos = outs[0] if outs else sos0          # the symbol the table may mention
+                        dicts = gen_table(rng, V, tsos, N, 0.5, 0.1, 1.0 if mention else 0.0, max_top=10)
+                        if mention and outs and not any(tsos in e["key"] for d in dicts for e in d):
+                            dicts[-1].append({"key": [tsos] + [rng.randrange(V) for _ in range(N - 1)],
+                                              "logp": grid(rng)})
+                        c = std_case(rng, V, sos0, N, rng.randrange(1, 5), rng.randrange(1, 3), dicts, p_sos=0.3)
+                        c["ctor"] = rng.choice(CTORS[:4])
+                        c["steps"] = [{"sos": x, "ctor": rng.choice(CTORS[:4])} for x in later]
+                        if k == len(plans):                       # a destructive construction at the end
+                            c["steps"][-1]["ctor"] = "destructive"
+                        elif k == len(plans) + 1:
+                            c["steps"][-1]["ctor"] = "destructive_kw"
+                        elif k == len(plans) + 2:                 # ... or in the middle: the rest is rejected
+                            c["steps"][0]["ctor"] = "destructive"
+                        yield c
+
     def size_case(self, rng, V, sos, what):
         shift = 0 if 0 <= sos < V else 1
         toks = list(range(V)) + ([sos] if shift else [])
@@ -546,68 +719,135 @@ class C06(PropertyCheck):
         import torch
         from pydrobert.torch.modules import LookupLanguageModel, SequentialLanguageModel
         V, sos, B = case["V"], case["sos"], case["B"]
+        changes = []          # caller-owned objects that a call changed: [which, text]
         with warnings.catch_warnings():
             warnings.simplefilter("ignore")
-            try:
-                ctor = case.get("ctor", "positional")
-                if ctor == "destructive":
-                    lm = LookupLanguageModel(V, sos, to_prob_dicts(case["dicts"]), True)
-                elif ctor == "prob_list":
-                    lm = LookupLanguageModel(V, sos, prob_list=to_prob_dicts(case["dicts"]))
-                else:
-                    lm = LookupLanguageModel(V, sos, to_prob_dicts(case["dicts"]))
-            except Exception as e:
-                return {"build_error": type(e).__name__, "message": str(e)[:200]}
-            out = {"build": {
-                "N": lm.max_ngram, "G": lm.max_ngram_nodes, "S": lm.max_direct_descendants,
-                "offsets": [int(x) for x in lm.offsets.tolist()], "ids": [int(x) for x in lm.ids.tolist()],
-                "logps": [frac_str(x) for x in lm.logps.tolist()],
-                "logbs": [frac_str(x) for x in lm.logbs.tolist()],
-                "offBits": BITS[str(lm.offsets.dtype)], "idBits": BITS[str(lm.ids.dtype)]}}
+            # ---- the caller's table, handed to every construction of the case (never rebuilt in between)
+            table = to_prob_dicts(case["dicts"])
+            held = list(table)
+            plan = [(sos, case.get("ctor", "positional"))] + [(s["sos"], s["ctor"]) for s in case.get("steps", [])]
+            built = []
+            for k, (sos_k, ctor_k) in enumerate(plan):
+                snap = (len(table), copy.deepcopy(held))
+                try:
+                    lm_k, err = construct(V, sos_k, table, ctor_k), None
+                except Exception as e:
+                    lm_k, err = None, {"build_error": type(e).__name__, "message": str(e)[:200]}
+                if not is_destructive(ctor_k):
+                    for d in table_changes(table, held, snap):
+                        changes.append(["prob_dicts", f"construction #{k + 1} (sos={sos_k}, {ctor_k}, destructive=False"
+                                        f"{', rejected with ' + err['build_error'] if err else ''}) changed the "
+                                        f"caller's table: {d}"])
+                built.append((lm_k, err, table_obs(table, held)))
+            steps_out = []
+            for (lm_k, err, obs), (sos_k, _c) in list(zip(built, plan))[1:]:
+                o = dict(err or {}, table_after=obs)
+                if lm_k is not None:
+                    o["build"] = self.build_obs(lm_k)
+                    hk = torch.tensor(step_hist(case, sos_k), dtype=torch.long).view(len(case["hist"]), B)
+                    o["full"] = tens3(lm_k(hk))
+                    o["chunk2"] = tens3(lm_k.calc_full_log_probs_chunked(hk, {}, 2))
+                steps_out.append(o)
+            lm, err, obs = built[0]
+            if lm is None:
+                return dict(err, table_after=obs, steps=steps_out, arg_changes=changes)
+            out = {"build": self.build_obs(lm), "table_after": obs, "steps": steps_out, "arg_changes": changes}
+            buffers0 = self.raw_buffers(lm)
             dtype = {"int64": torch.long, "int32": torch.int32}[case.get("hist_dtype", "int64")]
             T = len(case["hist"])
             view = make_view(case)
             if view is None:
-                hist = torch.tensor(case["hist"], dtype=dtype).view(T, B)
+                base = hist = torch.tensor(case["hist"], dtype=dtype).view(T, B)
             else:
-                hist = torch.tensor(view["storage"], dtype=dtype).as_strided(
-                    (T, B), (view["sT"], view["sB"]), view["off"])
+                base = torch.tensor(view["storage"], dtype=dtype)
+                hist = base.as_strided((T, B), (view["sT"], view["sB"]), view["off"])
                 if hist.tolist() != [list(r) for r in case["hist"]]:
                     raise AssertionError("harness: the laid-out tensor does not show the case's history")
             out["hist_is_contiguous"] = bool(hist.is_contiguous())
+            # ---- caller-owned arguments of the entry points: the history (its whole storage), `prev`
+            prev = {}
+
+            def hist_state():
+                return (base.tolist(), tuple(hist.shape), tuple(hist.stride()), hist.storage_offset(), str(hist.dtype))
+            state = {"hist": hist_state()}
+
+            def watch(after):
+                now = hist_state()
+                if now != state["hist"]:
+                    changes.append(["hist", f"{after} changed the caller's history tensor (storage, shape, strides, "
+                                            f"offset, dtype): {short_(state['hist'])} -> {short_(now)}"])
+                    state["hist"] = now
+                if prev != {}:
+                    changes.append(["prev", f"{after} changed the caller's prev dict: now {sorted(prev)}"])
+                    prev.clear()
+
+            def fwd(m, **kw):
+                return m(hist, prev, **kw) if case.get("pass_prev") else m(hist, **kw)
             lm2 = LookupLanguageModel(V, sos)
             try:
-                # "saved and loaded into a freshly constructed instance": through the serialiser
-                buf = io.BytesIO()
-                torch.save(lm.state_dict(), buf)
-                buf.seek(0)
-                lm2.load_state_dict(torch.load(buf))
+                sd = lm.state_dict()
+                sd_snap = {k: str(v.tolist()) for k, v in sd.items()}
+                if case.get("reload", "serialised") == "direct":
+                    # the state dict handed over as it is (it shares the first model's buffers)
+                    lm2.load_state_dict(sd)
+                else:
+                    # "saved and loaded into a freshly constructed instance": through the serialiser
+                    buf = io.BytesIO()
+                    torch.save(sd, buf)
+                    buf.seek(0)
+                    lm2.load_state_dict(torch.load(buf))
+                if {k: str(v.tolist()) for k, v in sd.items()} != sd_snap:
+                    changes.append(["state_dict", "load_state_dict / torch.save changed the state dict it was given"])
                 out["shape"] = {"N": lm2.max_ngram, "G": lm2.max_ngram_nodes, "S": lm2.max_direct_descendants}
             except Exception as e:
                 out["shape"] = {"error": type(e).__name__, "message": str(e)[:200]}
                 lm2 = None
             if "bad_chunk" in case:
                 try:
-                    lm.calc_full_log_probs_chunked(hist, {}, case["bad_chunk"])
+                    lm.calc_full_log_probs_chunked(hist, prev, case["bad_chunk"])
                     out["bad_chunk"] = "returned"
                 except Exception as e:
                     out["bad_chunk"] = type(e).__name__
+                watch(f"calc_full_log_probs_chunked(chunk_size={case['bad_chunk']})")
             if not case.get("oov"):
-                out["full"] = tens3(lm(hist))
-                out["chunked"] = {str(c): tens3(lm.calc_full_log_probs_chunked(hist, {}, c)) for c in case["chunks"]}
+                out["full"] = tens3(fwd(lm))
+                watch("lm(hist)")
+                out["chunked"] = {}
+                for c in case["chunks"]:
+                    out["chunked"][str(c)] = tens3(lm.calc_full_log_probs_chunked(hist, prev, c))
+                    watch(f"calc_full_log_probs_chunked(chunk_size={c})")
                 # the base-class evaluation: one index at a time on the whole history
-                out["byidx"] = tens3(SequentialLanguageModel.calc_full_log_probs(lm, hist, {}))
+                out["byidx"] = tens3(SequentialLanguageModel.calc_full_log_probs(lm, hist, prev))
+                watch("SequentialLanguageModel.calc_full_log_probs")
                 if lm2 is not None:
-                    out["reloaded_full"] = tens3(lm2(hist))
+                    out["reloaded_full"] = tens3(fwd(lm2))
+                    watch("reloaded lm(hist)")
+                # the entry points other modules call directly (no `forward` in between)
+                out["direct_diffs"] = []
+                if not case.get("pass_prev"):
+                    got = tens3(lm.calc_full_log_probs(hist, prev))
+                    watch("calc_full_log_probs")
+                    if got != out["full"]:
+                        out["direct_diffs"].append("calc_full_log_probs(hist, prev) differs from lm(hist): "
+                                                   + first_diff3(got, out["full"]))
             out["idx"] = []
             out["reloaded_idx"] = []
             out["idx_form_diffs"] = []
             for j, hidx in enumerate(case["idxs"]):
                 it = torch.tensor(hidx[0] if len(hidx) == 1 else hidx, dtype=torch.long)
-                got = tens2(lm(hist, idx=it)[0])
+                it_snap = it.tolist()
+                got = tens2(fwd(lm, idx=it)[0])
                 out["idx"].append(got)
                 if lm2 is not None:
-                    out["reloaded_idx"].append(tens2(lm2(hist, idx=it)[0]))
+                    out["reloaded_idx"].append(tens2(fwd(lm2, idx=it)[0]))
+                if not case.get("oov") and j in (1, 4):
+                    got_d = tens2(lm.calc_idx_log_probs(hist, prev, it)[0])
+                    if got_d != got:
+                        out["direct_diffs"].append(f"calc_idx_log_probs(hist, prev, {hidx}) = {got_d}, "
+                                                   f"lm(hist, idx=...) = {got}")
+                if it.tolist() != it_snap:
+                    changes.append(["idx", f"lm(hist, idx=...) changed the caller's idx tensor: {it_snap} -> {it.tolist()}"])
+                watch(f"lm(hist, idx={hidx})")
                 if j in (0, 3) and all(0 <= i <= T for i in hidx):
                     # the same index spelled differently (python int, one-element vector, negative)
                     for name, alt in idx_forms(hidx, T):
@@ -617,7 +857,23 @@ class C06(PropertyCheck):
                             g = {"error": type(e).__name__}
                         if g != got:
                             out["idx_form_diffs"].append(f"idx={hidx} as {name}: {g} instead of {got}")
+            # ---- the model itself must survive being evaluated, reloaded from, and having siblings built
+            if self.raw_buffers(lm) != buffers0:
+                changes.append(["model_buffers", "evaluating the model (or loading its state dict into another "
+                                                 "instance) changed its own buffers"])
         return out
+
+    @staticmethod
+    def build_obs(lm):
+        return {"N": lm.max_ngram, "G": lm.max_ngram_nodes, "S": lm.max_direct_descendants,
+                "offsets": [int(x) for x in lm.offsets.tolist()], "ids": [int(x) for x in lm.ids.tolist()],
+                "logps": [frac_str(x) for x in lm.logps.tolist()],
+                "logbs": [frac_str(x) for x in lm.logbs.tolist()],
+                "offBits": BITS[str(lm.offsets.dtype)], "idBits": BITS[str(lm.ids.dtype)]}
+
+    @staticmethod
+    def raw_buffers(lm):
+        return [str(b.dtype) + str(b.tolist()) for b in (lm.offsets, lm.ids, lm.logps, lm.logbs)]
 
     # ------------------------------------------------------------------ ARPA
     def arpa_file(self, case):
@@ -729,6 +985,25 @@ class C06(PropertyCheck):
         entry = case.get("entry", "fileobj")
         tmp = None
         fobj = None
+        changes = []
+        t2i_snap = None if token2id is None else (list(token2id.items()), copy.deepcopy(token2id))
+
+        def call(arg):
+            if case.get("call", "keyword") == "positional":
+                return parse_arpa_lm(arg, token2id, case["base_e"], ftype, logger)
+            kw = {"ftype": ftype, "logger": logger, "token2id": token2id}
+            if case["base_e"] is not None:   # None = leave the (deprecated) default: base 10
+                kw["to_base_e"] = case["base_e"]
+            return parse_arpa_lm(arg, **kw)
+
+        def after_call(arg, what):
+            # caller-owned arguments: the token map, the file object (still open: it is the caller's to close)
+            if t2i_snap is not None and (list(token2id.items()) != t2i_snap[0] or token2id != t2i_snap[1]):
+                changes.append(["token2id", f"{what} changed the caller's token2id: {short_(t2i_snap[1])} -> "
+                                            f"{short_(token2id)}"])
+            if not isinstance(arg, str) and arg.closed:
+                changes.append(["file_closed", f"{what} closed the file object it was given ({entry})"])
+        pds2 = None
         try:
             if entry == "fileobj":
                 arg = io.StringIO(text)
@@ -741,15 +1016,20 @@ class C06(PropertyCheck):
             with warnings.catch_warnings():
                 warnings.simplefilter("ignore")
                 try:
-                    if case.get("call", "keyword") == "positional":
-                        pds = parse_arpa_lm(arg, token2id, case["base_e"], ftype, logger)
-                    else:
-                        kw = {"ftype": ftype, "logger": logger, "token2id": token2id}
-                        if case["base_e"] is not None:   # None = leave the (deprecated) default: base 10
-                            kw["to_base_e"] = case["base_e"]
-                        pds = parse_arpa_lm(arg, **kw)
+                    try:
+                        pds = call(arg)
+                    finally:
+                        after_call(arg, "parse_arpa_lm")
+                    if case.get("reread"):
+                        # the same arguments once more (file object rewound by its owner)
+                        if not isinstance(arg, str) and not arg.closed:
+                            arg.seek(0)
+                        try:
+                            pds2 = call(arg)
+                        finally:
+                            after_call(arg, "a second parse_arpa_lm with the same arguments")
                 except (IOError, KeyError, ValueError) as e:
-                    return {"read_error": type(e).__name__, "message": str(e)[:200]}
+                    return {"read_error": type(e).__name__, "message": str(e)[:200], "arg_changes": changes}
         finally:
             if fobj is not None:
                 fobj.close()
@@ -769,7 +1049,10 @@ class C06(PropertyCheck):
                     types_ok = types_ok and isinstance(v[0], ftype) and isinstance(v[1], ftype)
                     d.append({"key": key, "logp": float(v[0]), "logb": float(v[1])})
             out.append(d)
-        return {"dicts": out, "types_ok": types_ok}
+        res = {"dicts": out, "types_ok": types_ok, "arg_changes": changes}
+        if pds2 is not None and (pds2 != pds or [list(d.items()) for d in pds2] != [list(d.items()) for d in pds]):
+            res["reread_diff"] = f"first {short_(pds, 300)}, second {short_(pds2, 300)}"
+        return res
 
     # ------------------------------------------------------------------ model
     def model_request(self, case):
@@ -780,6 +1063,9 @@ class C06(PropertyCheck):
         view = make_view(case)
         if view is not None:
             req["view"] = view
+        req["destructive"] = is_destructive(case.get("ctor", "positional"))
+        req["steps"] = [{"sos": st["sos"], "destructive": is_destructive(st["ctor"]), "hist": step_hist(case, st["sos"])}
+                        for st in case.get("steps", [])]
         return {"op": "c06.table", "case": req}
 
     # ------------------------------------------------------------------ comparison
@@ -788,24 +1074,14 @@ class C06(PropertyCheck):
             return [f"harness could not run the implementation: {impl['error']}: {impl.get('message')}"]
         if case["kind"] == "arpa":
             return self.compare_arpa(case, impl, model)
-        out = []
+        out = self.compare_caller(case, impl, model)
         if "build_error" in impl:
             if model["build"] is not None:
                 out.append(f"construction raised {impl['build_error']} but the model builds a trie")
             return out
         if model["build"] is None:
-            return ["model rejects the table (ValueError) but the implementation built a trie"]
-        a, b = impl["build"], model["build"]
-        for k in ("N", "G", "S", "offBits", "idBits"):
-            if a[k] != b[k]:
-                out.append(f"{k}: impl={a[k]} model={b[k]}")
-        for k in ("offsets", "ids", "logps", "logbs"):
-            if a[k] != b[k]:
-                if len(a[k]) != len(b[k]):
-                    out.append(f"buffer {k}: length impl={len(a[k])} model={len(b[k])}")
-                else:
-                    i = next(i for i in range(len(a[k])) if a[k][i] != b[k][i])
-                    out.append(f"buffer {k}[{i}]: impl={a[k][i]} model={b[k][i]}")
+            return out + ["model rejects the table (ValueError) but the implementation built a trie"]
+        out += self.compare_build(impl["build"], model["build"], "")
         if impl["shape"] != model["shape"]:
             out.append(f"load_state_dict shape: impl={impl['shape']} model={model['shape']}")
         if impl["hist_is_contiguous"] != model["view_contig"]:
@@ -822,6 +1098,63 @@ class C06(PropertyCheck):
         for j, hidx in enumerate(case["idxs"]):
             if impl["idx"][j] != model["idx"][j]:
                 out.append(f"idx={hidx}: impl={impl['idx'][j]} model={model['idx'][j]}")
+        return out
+
+    @staticmethod
+    def compare_build(a, b, where):
+        out = []
+        for k in ("N", "G", "S", "offBits", "idBits"):
+            if a[k] != b[k]:
+                out.append(f"{where}{k}: impl={a[k]} model={b[k]}")
+        for k in ("offsets", "ids", "logps", "logbs"):
+            if a[k] != b[k]:
+                if len(a[k]) != len(b[k]):
+                    out.append(f"{where}buffer {k}: length impl={len(a[k])} model={len(b[k])}")
+                else:
+                    i = next(i for i in range(len(a[k])) if a[k][i] != b[k][i])
+                    out.append(f"{where}buffer {k}[{i}]: impl={a[k][i]} model={b[k][i]}")
+        return out
+
+    @staticmethod
+    def model_table(case, obs):
+        """The Lean heap model's view of the caller's table in the shape of `table_obs` (the highest order of the
+        ORIGINAL table holds plain log-probabilities: no back-off weight)."""
+        N = len(case["dicts"])
+        dicts = []
+        for n, d in enumerate(obs["dicts"]):
+            rows = [{"key": e["key"], "logp": e["logp"], "logb": None if n == N - 1 else e["logb"]} for e in d]
+            dicts.append(sorted(rows, key=lambda e: (len(e["key"]), repr(e["key"]))))
+        return {"outer_len": obs["outer_len"], "dicts": dicts}
+
+    def compare_caller(self, case, impl, model):
+        """The caller's table after every construction (a destructive one included: the model predicts what is left
+        of it) and every later model built from the same table object, against the Lean heap procedure."""
+        out = []
+        if "table_after" in impl and "table_after" in model:
+            want = self.model_table(case, model["table_after"])
+            if impl["table_after"] != want:
+                out.append(f"the caller's table after construction #1 ({case.get('ctor', 'positional')}): "
+                           f"impl={short_(impl['table_after'], 300)} model={short_(want, 300)}")
+        for k, (st, a, b) in enumerate(zip(case.get("steps", []), impl.get("steps", []), model.get("steps", []))):
+            where = f"construction #{k + 2} from the same table object (sos={st['sos']}, {st['ctor']}): "
+            want = self.model_table(case, b["table_after"])
+            if a["table_after"] != want:
+                out.append(where + f"the caller's table afterwards: impl={short_(a['table_after'], 300)} "
+                                   f"model={short_(want, 300)}")
+            if "build_error" in a:
+                if b["build"] is not None:
+                    out.append(where + f"raised {a['build_error']} ({a.get('message')}) but the model builds a trie")
+                elif a["build_error"] != "ValueError":
+                    out.append(where + f"raised {a['build_error']}, the model's error class is ValueError")
+                continue
+            if b["build"] is None:
+                out.append(where + "the model rejects the table (ValueError) but the implementation built a trie")
+                continue
+            out += self.compare_build(a["build"], b["build"], where)
+            if a["full"] != b["full"]:
+                out.append(where + "full log-probs differ from the model: " + first_diff3(a["full"], b["full"]))
+            if a["chunk2"] != b["full"]:
+                out.append(where + "chunk_size=2 differs from the model: " + first_diff3(a["chunk2"], b["full"]))
         return out
 
     def compare_arpa(self, case, impl, model):
@@ -887,12 +1220,58 @@ class C06(PropertyCheck):
             return []
         if case["kind"] == "arpa":
             return self.predicate_arpa(case, impl)
+        return self.predicate_caller(case, impl, model) + self.predicate_table(case, impl, model)
+
+    def predicate_caller(self, case, impl, model):
+        """(a) No call may change an object the caller handed over (unless documented: destructive=True) nor the
+        model's own buffers; (b) every later model built from the same table object computes the Katz recursion
+        on the table the caller holds at that moment (= the original one after non-destructive constructions)."""
+        fails = []
+        for which, text in impl.get("arg_changes", []):
+            fails.append((text, "C06.model_state.changed_by_evaluation" if which == "model_buffers"
+                          else "C06.caller_object.changed." + which))
+        if model is None:
+            return fails
+        for k, (st, a, b) in enumerate(zip(case.get("steps", []), impl.get("steps", []), model.get("steps", []))):
+            where = f"construction #{k + 2} from the same table object (sos={st['sos']}, {st['ctor']})"
+            before = [case.get("ctor", "positional")] + [x["ctor"] for x in case["steps"][:k]]
+            if not any(is_destructive(c) for c in before) and not b["table_is_raw"]:
+                raise AssertionError("Lean model: the table is not the original one after non-destructive "
+                                     "constructions (theorem C06_build_pure says it is)")
+            if b["build"] is None:
+                if "build_error" not in a:
+                    fails.append((f"{where}: a table that must be rejected (ValueError) was accepted",
+                                  "C06.malformed.not_rejected@reuse"))
+                continue
+            if not b["table_ok"] or not b["chunk2_agree"]:
+                raise AssertionError("Lean model: a later construction's table fails `tableOK` / chunk sizes disagree")
+            if b["full"] != b["spec_full"]:
+                raise AssertionError("Lean model and Lean spec disagree on a later construction: "
+                                     + first_diff3(b["full"], b["spec_full"]))
+            if "build_error" in a:
+                fails.append((f"{where}: constructing the model from the table the caller holds (valid for this "
+                              f"start symbol) raised {a['build_error']}: {a.get('message')}",
+                              "C06.build_trie.raises." + a["build_error"] + "@reuse"))
+                continue
+            for name, got in (("all positions at once", a["full"]), ("chunk_size=2", a["chunk2"])):
+                if got != b["spec_full"]:
+                    fails.append((f"{where}, {name}: log-probabilities differ from Katz back-off on the caller's "
+                                  "table: " + first_diff3(got, b["spec_full"]),
+                                  "C06.value." + name.split("=")[0].replace(" ", "_") + "@reuse"))
+        return fails
+
+    def predicate_table(self, case, impl, model):
         self.internal_consistency(case, model)
         fails = []
         if case.get("bad_chunk") is not None and impl.get("bad_chunk") != "RuntimeError":
             fails.append((f"chunk_size={case['bad_chunk']} not rejected with RuntimeError: {impl.get('bad_chunk')}",
                           "C06.chunk_size.not_rejected"))
-        if case.get("malformed"):
+        valid = table_valid(case["dicts"], case["V"], case["sos"])
+        if model is not None and (model.get("build") is not None) != valid:
+            raise AssertionError(f"Lean model {'builds' if valid is False else 'rejects'} a table that is "
+                                 f"{'valid' if valid else 'not valid'} for V={case['V']}, sos={case['sos']}")
+        if case.get("malformed") or not valid:
+            # (a table handed to several constructions may be valid for a later start symbol only)
             if impl.get("build_error") != "ValueError":
                 fails.append((f"malformed table not rejected with ValueError: {impl.get('build_error', 'built')}",
                               "C06.malformed.not_rejected"))
@@ -915,6 +1294,9 @@ class C06(PropertyCheck):
                           "C06.load_state_dict.order"))
         lay = (case.get("layout") or {}).get("kind", "contig")
         suffix = "" if lay == "contig" else "@layout=" + lay
+        for d in impl.get("direct_diffs", []):
+            fails.append((f"an entry point called directly disagrees with the call through forward: {d}",
+                          "C06.value.direct_entry"))
         for d in impl.get("idx_form_diffs", []):
             fails.append((f"the same index spelled differently gives different log-probabilities: {d}",
                           "C06.value.idx_form"))
@@ -942,13 +1324,18 @@ class C06(PropertyCheck):
         """Reading the file yields exactly its listed entries (base 10 exactly; base e within 1e-12 relative)."""
         fails = []
         how = f"entry={case.get('entry', 'fileobj')}, to_base_e={case['base_e']}, ftype={case.get('ftype', 'float')}"
+        for which, text in impl.get("arg_changes", []):
+            fails.append((text, "C06.caller_object.changed." + which))
+        if "reread_diff" in impl:
+            fails.append((f"reading the same file twice with the same arguments gives different tables ({how}): "
+                          + impl["reread_diff"], "C06.arpa.reread"))
         if case.get("corrupt"):
             if "read_error" not in impl:
                 fails.append((f"a file that is not well-formed ({case['corrupt']}) was read without an error",
                               "C06.arpa.corrupt_accepted"))
             return fails
         if "read_error" in impl:
-            return [(f"reading a well-formed ARPA file raised {impl['read_error']}: {impl.get('message')} ({how})",
+            return fails + [(f"reading a well-formed ARPA file raised {impl['read_error']}: {impl.get('message')} ({how})",
                      "C06.arpa.raises")]
         conv = math.log(10.0) if case["base_e"] else 1.0
         tol = 1e-6 if case.get("ftype") == "np.float32" else 1e-12
@@ -1007,6 +1394,7 @@ class C06(PropertyCheck):
                     "arpa:call=" + case.get("call", "keyword"), "arpa:logger=" + str(bool(case.get("logger"))),
                     "arpa:corrupt=" + str(case.get("corrupt")), "arpa:variant=" + str(case.get("variant")),
                     "arpa:entry=%s,to_base_e=%s" % (case.get("entry", "fileobj"), case["base_e"]),
+                    "arpa:reread=" + str(bool(case.get("reread"))),
                     "arpa:implicit_backoff" if case["implicit"] else "arpa:explicit_backoff",
                     "arpa:numeric_tokens" if case["numeric_tokens"] else "arpa:word_tokens"]
         V, sos = case["V"], case["sos"]
@@ -1022,6 +1410,27 @@ class C06(PropertyCheck):
         t.append("layout=" + (case.get("layout") or {}).get("kind", "contig"))
         t.append("hist_dtype=" + case.get("hist_dtype", "int64"))
         t.append("ctor=" + case.get("ctor", "positional"))
+        t.append("reload=" + case.get("reload", "serialised"))
+        t.append("prev=" + ("passed" if case.get("pass_prev") else "default"))
+        steps = case.get("steps", [])
+        if steps:
+            t.append(f"reuse:constructions={len(steps) + 1}")
+            istep = impl.get("steps", []) if isinstance(impl, dict) else []
+            ctors = [case.get("ctor", "positional")] + [st["ctor"] for st in steps]
+            outcome = ["rejected" if (isinstance(impl, dict) and "build_error" in impl) else "built"] + \
+                      ["rejected" if "build_error" in o else "built" for o in istep]
+            for k, st in enumerate(steps):
+                t.append("reuse:sos_%s->%s%s" % (sos_class(V, sos), sos_class(V, st["sos"]),
+                                                 "(same)" if st["sos"] == sos else ""))
+                t.append("reuse:later_ctor=" + st["ctor"])
+                if any(is_destructive(c) for c in ctors[:k + 1]):
+                    t.append("reuse:after_a_destructive_construction")
+                if k + 1 < len(outcome):
+                    t.append("reuse:%s_then_%s" % (outcome[k], outcome[k + 1]))
+            if not (0 <= sos < V) or any(not (0 <= st["sos"] < V) for st in steps):
+                outs = {x for x in [sos] + [st["sos"] for st in steps] if not 0 <= x < V}
+                if any(x in e["key"] for d in case["dicts"] for e in d for x in outs):
+                    t.append("reuse:table_mentions_an_out_of_vocabulary_sos")
         if isinstance(impl, dict) and "hist_is_contiguous" in impl:
             t.append("hist.is_contiguous=" + str(impl["hist_is_contiguous"]))
         if isinstance(impl, dict) and "build" in impl:
@@ -1042,7 +1451,7 @@ class C06(PropertyCheck):
         if case["kind"] == "arpa":
             for k, v in (("entry", "fileobj"), ("ftype", "float"), ("token2id", False), ("logger", False),
                          ("call", "keyword"), ("style", "fixed"), ("numeric_tokens", False),
-                         ("blank_lines", False), ("implicit", False), ("variant", None)):
+                         ("blank_lines", False), ("implicit", False), ("variant", None), ("reread", False)):
                 if case.get(k) != v:
                     yield dict(case, **{k: v})
             dicts = case["dicts"]
@@ -1062,6 +1471,19 @@ class C06(PropertyCheck):
             yield dict(case, hist_dtype="int64")
         if case.get("ctor", "positional") != "positional":
             yield dict(case, ctor="positional")
+        if case.get("reload", "serialised") != "serialised":
+            yield dict(case, reload="serialised")
+        if case.get("pass_prev"):
+            yield dict(case, pass_prev=False)
+        steps = case.get("steps", [])
+        if steps:
+            yield {k: v for k, v in case.items() if k != "steps"}
+            if len(steps) > 1:
+                for i in range(len(steps)):
+                    yield dict(case, steps=steps[:i] + steps[i + 1:])
+            for i, st in enumerate(steps):
+                if st["ctor"] != "positional":
+                    yield dict(case, steps=steps[:i] + [dict(st, ctor="positional")] + steps[i + 1:])
         # fewer positions / batch elements
         if len(case["hist"]) > 0:
             T = len(case["hist"]) - 1
@@ -1088,8 +1510,14 @@ class C06(PropertyCheck):
                 for i in range(len(d)):
                     yield dict(case, dicts=dicts[:n] + [d[:i] + d[i + 1:]] + dicts[n + 1:])
         if case["V"] > 1 and all(t < case["V"] - 1 for d in dicts for e in d for t in e["key"]) \
-                and all(t < case["V"] - 1 for r in case["hist"] for t in r) and case["sos"] < case["V"] - 1:
+                and all(t < case["V"] - 1 for r in case["hist"] for t in r) and case["sos"] < case["V"] - 1 \
+                and all(st["sos"] != case["V"] - 1 for st in case.get("steps", [])):
             yield dict(case, V=case["V"] - 1)
+
+
+def short_(x, n=160):
+    t = repr(x)
+    return t if len(t) <= n else t[:n] + "..."
 
 
 def first_diff3(a, b):
